@@ -56,8 +56,21 @@ type Rec struct {
 	Done      bool   `json:"done"`     // Done() completed
 	OnClose   []int  `json:"onclose"`  // how often each registered on-close callback ran
 	Panics    int    `json:"panics"`
-	ByNoise   bool   `json:"bynoise"` // the peer's garbage ended the connection (and the call) before the interruption was fired
-	Others    bool   `json:"others"`  // the other calls in flight (e.g. the one occupying the limiter) returned too
+	ByNoise   bool   `json:"bynoise"`  // the peer's garbage ended the connection (and the call) before the interruption was fired
+	Others    bool   `json:"others"`   // the other calls in flight (e.g. the one occupying the limiter) returned too
+	CloseRet  bool   `json:"closeret"` // every Close() call returned
+}
+
+// bounded runs f and reports whether it returned within the watchdog (a Close that never returns must not hang the driver)
+func bounded(f func()) bool {
+	ch := make(chan struct{})
+	go func() { defer close(ch); f() }()
+	select {
+	case <-ch:
+		return true
+	case <-time.After(wd):
+		return false
+	}
 }
 
 const wd = 2 * time.Second
@@ -83,6 +96,8 @@ type conn interface {
 	isStream() bool
 	noise(level string) // the peer misbehaves: malformed input that must not end the connection, answers nobody waits for
 	shutdown()
+	stall()      // stream: the peer stops reading, its buffers are full: every write parks from now on
+	parked() int // writers parked in the transport's Write
 }
 
 func blkOpt(szx, num int, more bool) []byte {
@@ -102,7 +117,8 @@ func runTuple(transport string, t Tuple) Rec {
 	} else {
 		c = newTCP()
 	}
-	defer c.shutdown()
+	defer bounded(c.shutdown)
+	r.CloseRet = true
 	r.Closing = t.Kind == "close" || t.Kind == "peerclose"
 	counts := make([]atomic.Int64, 3)
 	for i := range counts {
@@ -154,15 +170,18 @@ func runTuple(transport string, t Tuple) Rec {
 					_ = c.close()
 				}()
 			}
-			wg.Wait()
-			func() {
+			if !bounded(wg.Wait) {
+				r.CloseRet = false
+				return
+			}
+			r.CloseRet = bounded(func() {
 				defer func() {
 					if x := recover(); x != nil {
 						r.Panics++
 					}
 				}()
 				_ = c.close() // and once more
-			}()
+			})
 		} else {
 			c.peerClose()
 		}
@@ -217,8 +236,24 @@ func runTuple(transport string, t Tuple) Rec {
 	if t.Op == "obscancel" {
 		occPath, wPath = "/obs", "/obs" // the deregistration is a request for the observed path
 	}
-	if t.Pt == "nstart" {
+	if t.Pt == "nstart" || t.Pt == "wlock" {
 		occPath, wPath = "/occ", "/w"
+	}
+	if (t.Pt == "wlock" || t.Pt == "wpark") && !c.isStream() {
+		r.Why = "a datagram write does not park"
+		return r
+	}
+	if t.Pt == "wlock" || t.Pt == "wpark" {
+		c.stall()
+	}
+	if t.Pt == "wlock" {
+		// the occupant's frame is parked in the write to the stalled peer and holds the connection's write lock
+		occ = make(chan error, 1)
+		go func() { occ <- c.get(occCtx, occPath) }()
+		if !hooks.WaitFor(wd, func() bool { return c.parked() == 1 }) {
+			r.Why = "occupant write not parked"
+			return r
+		}
 	}
 	if t.Pt == "queued" || t.Pt == "nstart" {
 		occ = make(chan error, 1)
@@ -276,6 +311,20 @@ func runTuple(transport string, t Tuple) Rec {
 			r.Why = "the call did not queue"
 		}
 		// one more call queued behind it
+		wch = make(chan error, 1)
+		go func() { wch <- c.get(wCtx, wPath) }()
+		time.Sleep(time.Millisecond)
+	case "wpark":
+		r.Reached = hooks.WaitFor(wd, func() bool { return c.parked() == 1 }) && !returnedEarly()
+		if !r.Reached && r.Why == "" {
+			r.Why = "the call's write did not park"
+		}
+	case "wlock":
+		time.Sleep(2 * time.Millisecond)
+		r.Reached = !returnedEarly() && c.parked() == 1
+		if !r.Reached && r.Why == "" {
+			r.Why = "the call did not wait for the write lock"
+		}
 		wch = make(chan error, 1)
 		go func() { wch <- c.get(wCtx, wPath) }()
 		time.Sleep(time.Millisecond)
@@ -562,6 +611,8 @@ func (c *udpC) peerClose() bool       { return false }
 func (c *udpC) done() <-chan struct{} { return c.cc.Done() }
 func (c *udpC) addOnClose(f func())   { c.cc.AddOnClose(f) }
 func (c *udpC) shutdown()             { _ = c.cc.Close(); _ = c.peer.Close() }
+func (c *udpC) stall()                {}
+func (c *udpC) parked() int           { return 0 }
 
 // ---- tcp adapter -------------------------------------------------------------------------------------------
 type tcpC struct {
@@ -684,10 +735,12 @@ func (c *tcpC) peerClose() bool       { c.t.Stream.EOF(); return true }
 func (c *tcpC) done() <-chan struct{} { return c.t.CC.Done() }
 func (c *tcpC) addOnClose(f func())   { c.t.CC.AddOnClose(f) }
 func (c *tcpC) shutdown()             { c.t.Close() }
+func (c *tcpC) stall()                { c.t.Stream.Stall() }
+func (c *tcpC) parked() int           { return int(c.t.Stream.Parked.Load()) }
 
 // ---- discovery on a real udp server; Stop from several goroutines --------------------------------------------
 func runDiscover(t Tuple) Rec {
-	r := Rec{Transport: "udpserver", Op: t.Op, Pt: t.Pt, Kind: t.Kind, Noise: t.Noise, OnClose: []int{}}
+	r := Rec{Transport: "udpserver", Op: t.Op, Pt: t.Pt, Kind: t.Kind, Noise: t.Noise, OnClose: []int{}, CloseRet: true}
 	if t.Kind == "peerclose" {
 		r.Why = "peer close does not exist on a datagram transport"
 		return r
